@@ -71,6 +71,7 @@ class GFile:
         self.markers = {}           # label -> marker bytes that follow it
         self.externs = []           # names this file exports
         self.probe_order = []       # symbols in the .dword probe table, in order
+        self.probe_header = None    # unique 8-byte marker in front of the probe table
         self.has_end = False
 
     def text(self):
@@ -830,7 +831,10 @@ class Gen:
             names = [c.name for c in plan["consts"]] + list(plan["labels"])
             if names:
                 fg.need_even(body)
-                body.append(Stmt('.ascii "PRB%d"' % (idx % 10), "probehdr"))
+                hdr = "PRB%05d" % (self.marker_ctr % 100000)
+                self.marker_ctr += 1
+                gf.probe_header = hdr.encode()
+                body.append(Stmt('.ascii "%s"' % hdr, "probehdr"))
                 for nm in names:
                     body.append(Stmt(".dword " + nm, "probe", {"name": nm}))
                     gf.probe_order.append(nm)
